@@ -454,6 +454,7 @@ func (it *Interp) IndexSet(dst, idx, v Value) {
 		if !ok {
 			rtErr("index-type", "invalid index type: %s", TypeName(idx))
 		}
+		it.checkStr(len(k))
 		it.occurs(dst, v)
 		d.Ms.M[k] = v
 		return
